@@ -79,6 +79,19 @@ def gen_section(r, tok, kind=None, paths=None, **kw):
     hunks = []
     if kind in ("mod", "add", "del", "renmod", "modemod"):
         hunks = [gen_hunk(r, tok, **kw) for _ in range(r.randint(1, 3))]
+        if kind in ("add", "del"):
+            # an added file has only added lines, a deleted file only removed lines
+            only = "+" if kind == "add" else "-"
+            for h in hunks:
+                h["body"] = [(only, t) for _, t in h["body"]]
+                n_ = len(h["body"])
+                if kind == "add":
+                    h["header"] = f"@@ -0,0 +1,{n_} @@" + h["frag"]
+                    h["old_start"], h["new_start"] = 0, 1
+                else:
+                    h["header"] = f"@@ -1,{n_} +0,0 @@" + h["frag"]
+                    h["old_start"], h["new_start"] = 1, 0
+            hunks = hunks[:1]
     return make_section(kind, p, q, hunks)
 
 
